@@ -1,6 +1,7 @@
 from .core import *
 import functools
 import itertools
+import numpy
 
 
 def eval_adverb_converge(f, a, op, backend):
@@ -192,6 +193,11 @@ def eval_adverb_each_pair(f, a, op, backend):
     return backend.kg_asarray([f(x,y) for x,y in zip(a[::],a[1::])])
 
 
+def _is_zero(a):
+    # the count may be a computed NumPy integer, which safe_eq(a, 0) never equals
+    return isinstance(a, (int, numpy.integer)) and a == 0
+
+
 def eval_dyad_adverb_iterate(f, a, b):
     """
 
@@ -205,7 +211,7 @@ def eval_dyad_adverb_iterate(f, a, b):
         Example: 3{1,x}:*[]  -->  [1 1 1]
 
     """
-    while not safe_eq(a, 0):
+    while not _is_zero(a):
         b = f(b)
         a = a - 1
     return b
@@ -416,10 +422,10 @@ def eval_adverb_scan_iterating(f, a, b, backend):
         Example: 3{1,x}\*[]  -->  [[] [1] [1 1] [1 1 1]]
 
     """
-    if safe_eq(a,0):
+    if _is_zero(a):
         return b
     r = [b]
-    while not safe_eq(a, 0):
+    while not _is_zero(a):
         b = f(b)
         r.append(b)
         a = a - 1
